@@ -65,8 +65,8 @@ theorem diff_converges (none : Bool) (L U : List StatE)
   simpa using this
 
 /-- non-vacuity: a two-entry listing [a (dir), a/b (file)] is Valid -/
-example : (diffB false [⟨[97], modeDir ||| 493, 0, 0, 0, 5, [], 0, 0⟩, ⟨[97, 47, 98], 420, 0, 0, 3, 5, [], 0, 0⟩]
-                       [⟨[97], modeDir ||| 493, 0, 0, 0, 6, [], 0, 0⟩, ⟨[97, 47, 98], 420, 0, 0, 4, 5, [], 0, 0⟩]).length = 1 := by
+example : (diffB false [⟨[97], modeDir ||| 493, 0, 0, 0, 5, [], 0, 0, []⟩, ⟨[97, 47, 98], 420, 0, 0, 3, 5, [], 0, 0, []⟩]
+                       [⟨[97], modeDir ||| 493, 0, 0, 0, 6, [], 0, 0, []⟩, ⟨[97, 47, 98], 420, 0, 0, 4, 5, [], 0, 0, []⟩]).length = 1 := by
   decide
 
 end Fsm.C02
